@@ -4,6 +4,9 @@ Decides the dirty-flag discipline: who may clear the flag and what must have
 happened before; that every writer of a chromosome's tests sets it; that the
 results of "something changed" operations are not discarded; that the cache
 invalidates *all* value maps on a change and guarantees the requested key.
+C12.laws interprets ComputationCache from source over every sequence of registrations,
+chromosome changes and queries up to a depth: each getter returns what the registered
+functions compute on the chromosome's current state (no memoised derivative survives).
 Interleavings of clone / crossover histories on shared objects are not decided.
 """
 
